@@ -342,4 +342,3 @@ func (e *Env) Parse(root *Prod, wrapped bool) Outcome {
 	}
 	return Outcome{Accept: true, Tree: tree, End: res.r}
 }
-
